@@ -113,11 +113,14 @@ def doubling_any_unit(res):
 
     class Hook:
         def pre_havoc(self, ex_, env):
-            tk = env.get("tmp_kernel")
+            # the growing list: whatever local (other than the parameter) is bound to the copy of the kernel made before the loop
+            names = [n for n, v in env.items() if n not in ("kernel", "self") and isinstance(v, SymSeq)]
+            st["tk_name"] = "tmp_kernel" if "tmp_kernel" in env or len(names) != 1 else names[0]
+            tk = env.get(st["tk_name"])
             q = z3.Int("q0")
             ok = isinstance(tk, SymSeq)
             ex_.oblige("doubling/list-starts-as-the-kernel", z3.And(tk.length == klen, z3.ForAll([q], z3.Implies(z3.And(0 <= q, q < klen), tk.at(q).t == q))) if ok else z3.BoolVal(False))
-            env["tmp_kernel"] = st["tk"] = TK(tk)
+            env[st["tk_name"]] = st["tk"] = TK(tk)
             off = env["offset"]
             st["off"] = num_term(off)[0]
             i = z3.Int("i_any")
